@@ -801,10 +801,30 @@ impl MdkStorageProvider for MdkMemoryStorage {
         name: &str,
     ) -> Result<(), MdkStorageError> {
         let key = (group_id.clone(), name.to_string());
+        // The snapshot map stays locked until the restore is done, so that the check below,
+        // the consumption of the snapshot and the restore are one step for other threads.
+        let mut snapshots = self.group_snapshots.write();
+        let snapshot = snapshots
+            .get(&key)
+            .ok_or_else(|| MdkStorageError::NotFound("Snapshot not found".to_string()))?;
+
+        // A Nostr group id belongs to one group only (save_group enforces it, the SQLite
+        // backend has a unique index). If the id recorded in the snapshot has been taken by
+        // another group since, restoring it would hand that group's routing entry to this
+        // one: refuse, as the SQLite backend does, and keep the snapshot.
+        if let Some(group) = &snapshot.group {
+            let inner = self.inner.read();
+            if let Some(owner) = inner.groups_by_nostr_id_cache.peek(&group.nostr_group_id)
+                && owner.mls_group_id != *group_id
+            {
+                return Err(MdkStorageError::Database(
+                    "nostr_group_id of the snapshot belongs to a different group".to_string(),
+                ));
+            }
+        }
+
         // Remove and restore the snapshot (consume it)
-        let snapshot = self
-            .group_snapshots
-            .write()
+        let snapshot = snapshots
             .remove(&key)
             .ok_or_else(|| MdkStorageError::NotFound("Snapshot not found".to_string()))?;
         self.restore_group_scoped_snapshot(snapshot);
